@@ -121,12 +121,31 @@ def snapshot_timer_monitor(lines, out):
         return None
     # fault settings: ModelChecker::new must carry the three rates over (as the flags the checker's semantics depends on)
     rates = {"drop": 0.0, "dupl": 0.0, "corrupt": 0.0}
+    din, dout, links, down = set(), set(), set(), set()
     for l in lines:
         w = l.split()
         if w[0] == "mc":
             break
         if w[0] == "net" and len(w) == 3 and w[1] in rates:
             rates[w[1]] = _f(w[2][1:]) if w[2].startswith("x") else float(w[2])
+        elif w[0] == "net":
+            # link controls of the simulator's network, by their documentation
+            if w[1] == "drop_in": din.add(w[2])
+            elif w[1] == "pass_in": din.discard(w[2])
+            elif w[1] == "drop_out": dout.add(w[2])
+            elif w[1] == "pass_out": dout.discard(w[2])
+            elif w[1] == "disconnect": din.add(w[2]); dout.add(w[2])
+            elif w[1] == "connect": din.discard(w[2]); dout.discard(w[2])
+            elif w[1] == "disable": links.add(f"{w[2]}>{w[3]}")
+            elif w[1] == "enable": links.discard(f"{w[2]}>{w[3]}")
+            elif w[1] == "partition":
+                k = w.index("/")
+                for x in w[2:k]:
+                    for y in w[k + 1:]:
+                        links.add(f"{x}>{y}"); links.add(f"{y}>{x}")
+            elif w[1] == "reset": din.clear(); dout.clear(); links.clear()
+        elif w[0] == "crash": down.add(w[1])
+        elif w[0] == "recover": down.discard(w[1])
     nets = next((l for l in out if l.startswith("NETS ")), None)
     if nets:
         got = dict(kv.split("=", 1) for kv in nets.split()[1:])
@@ -135,6 +154,11 @@ def snapshot_timer_monitor(lines, out):
             if got.get(k) != str(want[k]):
                 return (f"the simulator's network has {k} rate {rates[k]}, but the checker built by ModelChecker::new starts with "
                         f"{k}={got.get(k)} (expected {want[k]}): {nets}")
+        # a crashed node stays disconnected in the checker; everything else is carried over as it is
+        for k, val in (("din", din | down), ("dout", dout | down), ("links", links)):
+            if got.get(k) != "[" + ",".join(sorted(val)) + "]":
+                return (f"ModelChecker::new starts the checker with {k}={got.get(k)}, the simulator's network (plus its crashed nodes) has "
+                        f"[{','.join(sorted(val))}]")
     clock, sets, first = 0.0, {}, False
     for l in out:
         m = re.match(r"ret=\S+ t=([0-9a-f]{16})", l)
